@@ -63,6 +63,7 @@ class Fn:
         self.elemtype = None
         self.written = []       # arrays written (lean names, in first-write order)
         self.monadic = False
+        self.wrap = False       # uses gcc's wrap-around / truncation semantics (`CWrap`): the `return x1 - x2` comparator idiom
         self.stats = {"n_reads": 0, "n_writes": 0, "n_loops": 0, "n_ops": 0, "n_calls": 0}
 
     # ------------------------------------------------------------------ helpers
@@ -287,6 +288,31 @@ class Fn:
             return target
         return a
 
+    def wrap_int(self, n):
+        """an expression of an INTEGER element type returned as `int` (the comparator idiom `return x1 - x2;`): pure Lean `Int` term in
+        gcc's semantics — `+ - *` wrap around at the element width (`CWrap.wadd/wsub/wmul`; ISO C: undefined on signed overflow, UBSan
+        aborts the C side) and the conversion to `int` keeps the low 32 bits (`CWrap.toCInt`; implementation-defined in ISO C)"""
+        if self.elemtype not in ("int", "int64_t"):
+            raise Unsupported("%s: a %s expression returned as int" % (self.where(n), self.elemtype))
+        def go(x):
+            x = unwrap(x, casts=("LValueToRValue", "NoOp"))
+            k = x["kind"]
+            if k == "ImplicitCastExpr" and x.get("castKind") == "IntegralCast" and strip_q(x["type"]["qualType"]) == "int":
+                return go(x["inner"][0])
+            if k == "DeclRefExpr":
+                nm = x["referencedDecl"]["name"]
+                if self.kind.get(nm) not in ("elem", "voidp") or nm not in self.bound:
+                    raise Unsupported("%s: %s in a wrapped integer expression" % (self.where(x), nm))
+                return self.ident(nm)
+            if k == "BinaryOperator" and x["opcode"] in ("+", "-", "*"):
+                if strip_q(x["type"]["qualType"]) not in (self.elemtype, {"int64_t": "long"}.get(self.elemtype, "")):
+                    raise Unsupported("%s: arithmetic at type %s in a routine over %s" % (self.where(x), x["type"]["qualType"], self.elemtype))
+                self.stats["n_ops"] += 1
+                return "(CWrap.%s %s %s)" % ({"+": "wadd", "-": "wsub", "*": "wmul"}[x["opcode"]], go(x["inner"][0]), go(x["inner"][1]))
+            raise Unsupported("%s: wrapped integer expression of kind %s %s" % (self.where(x), k, x.get("opcode", "")))
+        self.wrap = True
+        return "(CWrap.toCInt %s)" % go(n)
+
     def cond(self, n, out):
         n = unwrap(n)
         k = n["kind"]
@@ -434,6 +460,7 @@ class Fn:
         if fn not in self.known:
             raise Unsupported("%s: call of %s (not translated)" % (self.where(n), fn))
         sig = self.known[fn]
+        self.wrap = self.wrap or getattr(sig, "wrap", False)
         args, wr = [], []
         for a, (pn, pk) in zip(n["inner"][1:], sig.params):
             if pk == "arr":
@@ -509,6 +536,7 @@ class Fn:
             sig = self.known.get(cn)
             if not sig or sig.monadic or sig.ret != "idx" or [kk for _, kk in sig.params] != ["elem", "elem"]:
                 raise Unsupported("%s: qsort comparator %s is not a translated pure comparator" % (self.where(s), cn))
+            self.wrap = self.wrap or getattr(sig, "wrap", False)
             lines.append("let %s ← qsortM %s %s %s" % (arr, arr, nn, sig.name))
             self.monadic = True; self.stats["n_calls"] += 1
             if arr not in self.written:
@@ -623,7 +651,9 @@ class Fn:
                     r = None
                 else:
                     e = s["inner"][0]
-                    if self.ret == "idx":
+                    if self.ret == "idx" and not self.is_idx_expr(e) and self.int_literal(e) is None and not self.returns_index_expr(e):
+                        r = "(%s : Int)" % self.wrap_int(e)
+                    elif self.ret == "idx":
                         r = "(%s : Int)" % self.idx(e)
                     elif unwrap(e)["kind"] == "CallExpr":
                         r = self.call(unwrap(e), pre, want_ret=True)
@@ -684,9 +714,9 @@ class Fn:
                 self.bound.add(nm)
         if rt == "void":
             self.ret = None
-        elif rt == self.elemtype and not self.returns_index(body):
+        elif rt == self.elemtype and not self.returns_index(body) and "voidp" not in self.kind.values():
             self.ret = "elem"
-        elif rt in INT_TYPES:
+        elif rt in INT_TYPES:          # (a qsort comparator — `const void *` parameters — returns a plain `int`, never an element)
             self.ret = "idx"
         else:
             raise Unsupported("%s: return type %s" % (self.where(), rt))
@@ -710,17 +740,22 @@ class Fn:
         tys = (["Int" if self.ret == "idx" else "α"] if self.ret else []) + ["Array α"] * len(order)
         rty = " × ".join(tys)
         if self.monadic:
-            head = "def %s %s : Option (%s) := do" % (self.name, " ".join(params), rty)
+            head = "def %s %s%s : Option (%s) := do" % (self.name, "[CWrap α] " if self.wrap else "", " ".join(params), rty)
         else:
-            head = "def %s %s : %s :=" % (self.name, " ".join(params), rty)
+            head = "def %s %s%s : %s :=" % (self.name, "[CWrap α] " if self.wrap else "", " ".join(params), rty)
         line = self.f.get("loc", {}).get("line", "?")
         doc = "/-- `%s` (%s:%s)%s -/" % (self.cname, self.cfile, line, (" with " + ", ".join("%s = %s" % kv for kv in self.alias.items())) if self.alias else "")
         sig = Sig(self.name, sig_params, order, self.ret)
         sig.monadic = self.monadic
+        sig.wrap = self.wrap
         return doc + "\n" + head + "\n" + "\n".join(text_lines) + "\n", sig
 
     def result(self, r):
         return r or ""
+
+    def returns_index_expr(self, e):
+        """does the returned expression mention no variable of element kind? (then it is index arithmetic)"""
+        return not any(self.kind.get(v) in ("elem", "voidp", "arr", "mat") for v in self.vars_in(e))
 
     def returns_index(self, body):
         """a function whose element type is int64_t/int and whose return type is the same: is the returned value an index?"""
@@ -780,10 +815,10 @@ def generate(src_dir, the_plan=None):
             if not alias:
                 known[nm] = sig
             chunks.append(text)
-            infos.append({"name": t.name, "elem": t.elemtype, "params": sig.params, "writes": sig.writes, "ret": sig.ret, "monadic": t.monadic, **t.stats})
+            infos.append({"name": t.name, "elem": t.elemtype, "wrap": t.wrap, "params": sig.params, "writes": sig.writes, "ret": sig.ret, "monadic": t.monadic, **t.stats})
     disp = ["/-- name → translated function; arguments grouped by kind in parameter order (arrays, indices, elements);",
             "    outer `none` = unknown name / wrong arity, inner `none` = the routine faults -/",
-            "def dispatch (name : String) (A : List (Array α)) (I : List Int) (E : List α) : Option (Option (Res α)) :=",
+            "def dispatch %s(name : String) (A : List (Array α)) (I : List Int) (E : List α) : Option (Option (Res α)) :=" % ("[CWrap α] " if any(i["wrap"] for i in infos) else ""),
             "  match name, A, I, E with"]
     for inf in infos:
         ps = inf["params"]
